@@ -920,6 +920,12 @@ pub mod __verif {
         Key::new(op, proactor.default_extra(), driver_ty)
     }
 
+    /// Build a key without a driver instance, for configurations whose driver cannot be
+    /// constructed inside a harness (io_uring / polling need the kernel).
+    pub fn detached_key<T: OpCode + 'static>(op: T, driver_ty: DriverType) -> Key<T> {
+        Key::new(op, crate::sys::Extra::detached(), driver_ty)
+    }
+
     /// What `Driver::push` does with an accepted operation: keep one reference.
     pub fn kernel_ref<T>(key: &Key<T>) -> KernelRef {
         KernelRef(key.clone().erase())
